@@ -1,4 +1,4 @@
-\* generation: every transition over tree T4e, one observer, one restart
+\* generation: every transition over tree T4e, one observer, one restart, printed once (all properties checked on the way)
 SPECIFICATION Spec
 CONSTANTS
   N = 4
@@ -9,7 +9,9 @@ CONSTANTS
   MaxRestarts = 1
   ByzMode = "branch"
   ByzRanges <- R123
-  Fixes <- NoFix
+  Fixes <- AllFixes
 VIEW view
 ACTION_CONSTRAINT GenLog
+INVARIANTS TypeOK LibOnMain ConfirmsOnMain Agreement HonestConfirms
+PROPERTIES LibMonotone Final NoForkBelowLib LibQuorum RestoreEqualsRecompute
 CHECK_DEADLOCK FALSE
